@@ -684,7 +684,11 @@ func writeChunkedSegment(ctx context.Context, log *slog.Logger, w http.ResponseW
 	// The rest are returned HTTP chunks as time passes.
 	// In general, we should extract all the samples and build a new one with the right fragment duration.
 	// That fragment/chunk duration is segment_duration-availabilityTimeOffset.
-	chunkDur := (a.SegmentDurMS - int(cfg.AvailabilityTimeOffsetS*1000)) * int(rep.MediaTimescale) / 1000
+	// Use the duration of this segment, since the asset average (a.SegmentDurMS) is wrong for varying segment durations
+	chunkDur := int(so.meta.newDur) - int(math.Round(cfg.AvailabilityTimeOffsetS*float64(rep.MediaTimescale)))
+	if chunkDur <= 0 {
+		return fmt.Errorf("availabilityTimeOffset %.3fs is not smaller than the segment duration", cfg.AvailabilityTimeOffsetS)
+	}
 	chunks, err := chunkSegment(rep.initSeg, seg, so.meta, chunkDur)
 	if err != nil {
 		return fmt.Errorf("chunkSegment: %w", err)
